@@ -40,11 +40,14 @@ def report(prop, results, mc, table, tier, seed, t0, assumptions):
         for mv in mc["violations"]:
             if mv["property"] != prop:
                 continue
+            mv["confirmed"] = bool(hits)
             path = C.save_replay(prop, "model_%s" % mv["name"], mv)
-            print("VIOLATION property=%s replay=%s" % (prop, path))
-            print("  the design model Atomics.tla, instantiated with the orderings the code passes, violates %s (%s); confirmed on a recorded execution: %s"
-                  % (mv["invariant"], mv["name"], mv.get("confirmed")))
-            rc = 1
+            if hits:
+                print("  (also: the design model Atomics.tla instantiated with the code's orderings violates %s for %s: %s)" % (mv["invariant"], mv["name"], path))
+            else:
+                # verdict rule (b) of DESIGN.md 2.3: a model counterexample alone is not a verdict
+                print("UNCONFIRMED-MODEL-FINDING property=%s: Atomics.tla with the code's orderings violates %s for %s, but no recorded "
+                      "execution shows it (details: %s)" % (prop, mv["invariant"], mv["name"], path))
     counts = {}
     for r in results:
         for k, n in r["counts"].items():
